@@ -35,7 +35,7 @@ Boundary == <<
 NB == Len(Boundary)
 BinOpNames == <<"+", "-", "*", "/", "%", "==", "!=", "<", "<=", ">", ">=">>
 UnOpNames == <<"-", "abs">>
-C0 == Ctx([funcs |-> <<>>, structs |-> <<>>, enums |-> <<>>, unions |-> <<>>, globals |-> <<>>, shadows |-> <<>>], {}, "spec", FALSE)
+C0 == Ctx([funcs |-> <<>>, structs |-> <<>>, enums |-> <<>>, unions |-> <<>>, globals |-> <<>>, shadows |-> <<>>, externs |-> <<>>], {}, "spec", FALSE)
 CCoq == [C0 EXCEPT !.mode = "coq"]
 VARIABLES op, ai, bi, phase
 vars == <<op, ai, bi, phase>>
